@@ -73,8 +73,18 @@ macro_rules! make_subject {
             $runner,
             SpyWriter,
         )
-        .with_cli(opts)
-        .init_tracing();
+        .with_cli(opts);
+        hs::LOG_AT_WARN.with(|w| w.set(cfg.warn_filter));
+        let c = if cfg.warn_filter {
+            use tracing_subscriber::{filter::LevelFilter, layer::SubscriberExt as _, Layer as _};
+            c.configure_and_init_tracing(
+                tracing_subscriber::fmt::format::DefaultFields::new(),
+                tracing_subscriber::fmt::format::Format::default(),
+                |layer| tracing_subscriber::registry().with(LevelFilter::WARN.and_then(layer)),
+            )
+        } else {
+            c.init_tracing()
+        };
         let dispatch =
             cucumber::verif::take_dispatch().expect("hook H3 did not hand over the Dispatch");
         let fut = async move {
@@ -135,12 +145,18 @@ pub fn family(tier: Tier) -> Vec<Config> {
                         if !hooks && (fault == "before" || fault == "after") {
                             continue;
                         }
-                        for (conc, outer) in [(Some(1usize), false), (Some(2), false), (Some(2), true)] {
-                            if outer && (gates == GateMode::All || fault != "none") {
+                        for (conc, outer, warn) in [
+                            (Some(1usize), false, false),
+                            (Some(2), false, false),
+                            (Some(2), true, false),
+                            (Some(2), false, true),
+                        ] {
+                            if (outer || warn) && (gates == GateMode::All || fault != "none") {
                                 continue;
                             }
                             let mut cfg = Config::default();
                             cfg.outer_span = outer;
+                            cfg.warn_filter = warn;
                             let mut tags: Vec<&str> = vec![];
                             if retry > 0 {
                                 tags.push("retry(1)");
@@ -182,9 +198,10 @@ pub fn family(tier: Tier) -> Vec<Config> {
                             }
                             cfg.max_execs = if tier == Tier::Quick { 4_000 } else { 400_000 };
                             cfg.name = format!(
-                                "trace/n{nsc}|lb{lb}la{la}|r{retry}|{fault}|g{gates:?}|c{conc:?}|hooks{}|outer{}",
+                                "trace/n{nsc}|lb{lb}la{la}|r{retry}|{fault}|g{gates:?}|c{conc:?}|hooks{}|outer{}|warn{}",
                                 u8::from(hooks),
-                                u8::from(outer)
+                                u8::from(outer),
+                                u8::from(warn)
                             );
                             out.push(cfg);
                         }
